@@ -237,7 +237,7 @@ Lemma TG_reopen c nid nid' ts ts' l B Bb rch :
   map b_ents rch = map b_ents (memne ts) -> map b_id rch = map b_id (memne ts) ->
   Forall (bwf c) rch -> Forall (fun b => 0 < b_id b < nid') rch -> NoDup (map b_id rch) ->
   (forall p, ts_index ts = Some p -> stale_p (memne ts) p = false) ->
-  TG c nid' ts' l B Bb.
+  TG c nid' ts' l B Bb /\ (forall x p, ts_index ts' = Some p -> PGood c (nrm x ts') p).
 Proof.
   intros Hc Hn' (Hsc & Hx) Hch Hrd Hix Hwr Hpo Hum Hcnt Hents Hids Hbwf Hrange Hnd Hstale.
   pose proof Hc as (Hh & _).
@@ -262,6 +262,7 @@ Proof.
     assert (Hun' : unread c ts' = chain_ents rch).
     { unfold unread. rewrite Hrd. cbn [mk_reader r_idx r_off r_chain startup_cursor fst snd skipn]. rewrite Hwr.
       destruct rch as [|b0 r0]; [reflexivity|]. rewrite Hwe, app_nil_r, ents_from_0. reflexivity. }
+    split; [|intros x p0 Hp0; rewrite Hix in Hp0; discriminate].
     split; [intros _ p0 Hp0; rewrite Hix in Hp0; discriminate|].
     intros x. rewrite Hnrm. destruct (Hx x) as (Hti & Hp3 & Hdl & Hs & Hu & Hb1 & Hb2). rewrite Hold in *.
     destruct Hp3 as (_ & Hp3). rewrite Eidx in Hp3.
@@ -299,6 +300,21 @@ Proof.
     rewrite Hb' in Hb''. inversion Hb''; subst b''.
     exists j, b'. split; [exact Hb'|]. split; [destruct (p_tail p); [congruence|exact (proj1 Hpos)]|].
     split; [now rewrite He'|]. rewrite Hun. symmetry. now apply from_ents_eq. }
+  assert (HPG : forall x, PGood c (nrm x ts') p).
+  { intros x. destruct (Hgood x) as (j & b' & Hb' & Hpos & Hok & Hun).
+    assert (Hj : (j < length rch)%nat) by (apply nth_error_Some; congruence).
+    assert (Hbw : bwf c b') by (eapply Forall_forall in Hbwf; [exact Hbwf|eapply nth_error_In; eauto]).
+    destruct (hyd_mk c x rch (startup_cursor rch (Some p)) p j b' Hb' Hok (proj1 Hbw) Hnd Hpos) as (R1 & R2 & R3 & R4 & R5).
+    set (R := hyd x (mk_reader rch (startup_cursor rch (Some p))) (Some p)) in *.
+    assert (Hnrm : nrm x ts' = with_reader ts' R) by (unfold nrm; rewrite Hhy', Hix, Hrd; reflexivity).
+    rewrite Hnrm. exists j, b'.
+    assert (Hm2 : memne (with_reader ts' R) = rch).
+    { unfold memne, chain_of, w_list. cbn [reader_of with_reader ts_reader ts_writer]. rewrite R1, Hwr, app_nil_r.
+      apply filter_all. eapply Forall_impl; [|exact Hcne]. intros b Hb. now apply nonempty_b_true. }
+    rewrite Hm2. split; [exact Hb'|]. split.
+    - destruct (p_tail p); [exact Hpos|]. split; [exact Hpos|]. unfold chain_of. cbn [reader_of with_reader ts_reader]. now rewrite R1.
+    - split; [exact Hok|]. eapply unread_reopened; eauto. }
+  split; [|intros x p0 Hp0; rewrite Hix in Hp0; inversion Hp0; subst p0; apply HPG].
   split.
   { (* SC *)
     intros _ p0 Hp0. rewrite Hix in Hp0. inversion Hp0; subst p0. rewrite Hrd. split; [reflexivity|].
@@ -367,35 +383,57 @@ Proof.
   split; [now apply TInv0|]. split; [apply P3_tstate0|exact A].
 Qed.
 
-Theorem G_reopen c s g B Bb : cfg_ok c -> G c s g B Bb -> restart_known c s = false -> G c (reopen c s) g B Bb.
+(* the core: no block-id drift, and no topic's persisted position is stale *)
+Theorem G_reopen_ns c s g B Bb : cfg_ok c -> G c s g B Bb -> id_drift c s = false ->
+  (forall t p, ts_index (get_ts s t) = Some p -> stale_p (memne (get_ts s t)) p = false) ->
+  G c (reopen c s) g B Bb /\ PG c (reopen c s).
 Proof.
-  intros Hc (Hn & Hd & Hb & Hl & Hall) Hk. pose proof Hc as (Hh & Hb0 & _).
-  apply orb_false_iff in Hk. destruct Hk as (Hdrift & Hstale).
+  intros Hc (Hn & Hd & Hb & Hl & Hall) Hdrift Hstale. pose proof Hc as (Hh & Hb0 & _).
   pose proof (reopen_stream c s Hc Hd) as Hst.
   assert (Hn' : 0 < a_next (s_alloc (reopen c s))).
   { destruct (reopen_fields c s) as (_ & _ & F3). rewrite F3. cbn [a_next]. lia. }
-  split; [exact Hn'|]. split; [now apply reopen_DIs|]. split; [now apply reopen_BIs|]. split; [now apply reopen_DLim|].
-  intros t. pose proof (di_wf _ _ _ _ _ _ Hd) as Hwf.
-  destruct (reopen_shape c s t Hh Hb0 Hwf) as (S1 & S2 & S3 & S4 & S5 & S6 & Hcase). cbn zeta in *.
-  destruct Hcase as [(old & Hin & Hold & Hrch)|(H0 & H0')].
-  - destruct (reopen_chain c s t Hc Hd Hb Hl) as (C1 & C2 & C3 & C4 & _). cbn zeta in *.
-    eapply TG_reopen with (rch := chain_of (get_ts (reopen c s) t)); eauto.
-    + rewrite C1. apply mblocks_memne.
-    + rewrite Hrch, Hold. now apply nodrift_ids.
-    + intros p Hp. rewrite Hold in *. eapply nostale; eauto.
-  - rewrite H0'. specialize (Hall t). rewrite H0 in Hall. eapply TG_tstate0; eauto.
+  assert (Htopic : forall t, TG c (a_next (s_alloc (reopen c s))) (get_ts (reopen c s) t) (lget g t) B Bb /\
+                             (forall x p, ts_index (get_ts (reopen c s) t) = Some p -> PGood c (nrm x (get_ts (reopen c s) t)) p)).
+  { intros t. pose proof (di_wf _ _ _ _ _ _ Hd) as Hwf.
+    destruct (reopen_shape c s t Hh Hb0 Hwf) as (S1 & S2 & S3 & S4 & S5 & S6 & Hcase). cbn zeta in *.
+    destruct Hcase as [(old & Hin & Hold & Hrch)|(H0 & H0')].
+    - destruct (reopen_chain c s t Hc Hd Hb Hl) as (C1 & C2 & C3 & C4 & _). cbn zeta in *.
+      eapply TG_reopen with (rch := chain_of (get_ts (reopen c s) t)); eauto.
+      + rewrite C1. apply mblocks_memne.
+      + rewrite Hrch, Hold. now apply nodrift_ids.
+    - rewrite H0'. specialize (Hall t). rewrite H0 in Hall. split; [eapply TG_tstate0; eauto|].
+      intros x p Hp. discriminate. }
+  split.
+  - split; [exact Hn'|]. split; [now apply reopen_DIs|]. split; [now apply reopen_BIs|]. split; [now apply reopen_DLim|].
+    intros t. exact (proj1 (Htopic t)).
+  - intros t x p. exact (proj2 (Htopic t) x p).
 Qed.
+
+Theorem G_reopen c s g B Bb : cfg_ok c -> G c s g B Bb -> restart_known c s = false -> G c (reopen c s) g B Bb.
+Proof.
+  intros Hc HG Hk. apply orb_false_iff in Hk. destruct Hk as (Hdrift & Hstale).
+  apply (G_reopen_ns c s g B Bb Hc HG Hdrift). intros t p Hp.
+  unfold get_ts in *. destruct (find (fun q => fst q =? t) (s_topics s)) as [[k old]|] eqn:Ef; [|discriminate].
+  pose proof (find_some _ _ Ef) as (Hin & Hk). cbn in Hk. assert (k = t) by lia. subst k. cbn [snd] in *.
+  eapply nostale; eauto.
+Qed.
+
+(* with every persisted position good (invariant PG, which the repaired provisional persist gives),
+   block-id drift is the only known class left *)
+Corollary G_reopen_pg c s g B Bb : cfg_ok c -> G c s g B Bb -> PG c s -> id_drift c s = false ->
+  G c (reopen c s) g B Bb /\ PG c (reopen c s).
+Proof. intros Hc HG Hpg Hd. apply G_reopen_ns; auto. now apply (PG_nonstale c). Qed.
 
 (* goal (2): after a restart outside the known classes, every topic's stream, unread entries and
    count are what they were (whichever read path hydrates the reader first) *)
-Corollary reopen_cursor c s g B Bb : cfg_ok c -> G c s g B Bb -> restart_known c s = false ->
+Lemma reopen_cursor_gen c s g B Bb : G c s g B Bb -> G c (reopen c s) g B Bb ->
   forall t x y,
     stream (get_ts (reopen c s) t) = stream (get_ts s t) /\
     unread c (nrm x (get_ts (reopen c s) t)) = unread c (nrm y (get_ts s t)) /\
     cnt (get_ts (reopen c s) t) = cnt (get_ts s t) /\
     cnt (get_ts (reopen c s) t) = N.of_nat (length (unread c (nrm x (get_ts (reopen c s) t)))).
 Proof.
-  intros Hc HG Hk t x y. pose proof (G_reopen c s g B Bb Hc HG Hk) as HG'.
+  intros HG HG' t x y.
   destruct HG as (_ & _ & _ & _ & Hall). destruct HG' as (_ & _ & _ & _ & Hall').
   destruct (Hall t) as (_ & Hx). destruct (Hall' t) as (_ & Hx').
   destruct (Hx y) as (Hti & _ & _ & Hs & Hu & _). destruct (Hx' x) as (Hti' & _ & _ & Hs' & Hu' & _).
@@ -404,3 +442,19 @@ Proof.
   fold (cnt (get_ts s t)) in C1. fold (cnt (get_ts (reopen c s) t)) in C2.
   split; [congruence|]. split; [congruence|]. split; [|exact C2]. rewrite C1, C2, Hu, Hu'. reflexivity.
 Qed.
+
+Corollary reopen_cursor c s g B Bb : cfg_ok c -> G c s g B Bb -> restart_known c s = false ->
+  forall t x y,
+    stream (get_ts (reopen c s) t) = stream (get_ts s t) /\
+    unread c (nrm x (get_ts (reopen c s) t)) = unread c (nrm y (get_ts s t)) /\
+    cnt (get_ts (reopen c s) t) = cnt (get_ts s t) /\
+    cnt (get_ts (reopen c s) t) = N.of_nat (length (unread c (nrm x (get_ts (reopen c s) t)))).
+Proof. intros Hc HG Hk. apply (reopen_cursor_gen c s g B Bb HG). now apply G_reopen. Qed.
+
+Corollary reopen_cursor_pg c s g B Bb : cfg_ok c -> G c s g B Bb -> PG c s -> id_drift c s = false ->
+  forall t x y,
+    stream (get_ts (reopen c s) t) = stream (get_ts s t) /\
+    unread c (nrm x (get_ts (reopen c s) t)) = unread c (nrm y (get_ts s t)) /\
+    cnt (get_ts (reopen c s) t) = cnt (get_ts s t) /\
+    cnt (get_ts (reopen c s) t) = N.of_nat (length (unread c (nrm x (get_ts (reopen c s) t)))).
+Proof. intros Hc HG Hpg Hk. apply (reopen_cursor_gen c s g B Bb HG). now apply G_reopen_pg. Qed.
